@@ -408,7 +408,7 @@ func checkC08(c *Ctx) {
 			}
 		}
 	}
-	c08mirror(c)
+	c08pipeModel(c, "C08.R2", "", "")
 	c08conic(c)
 	c.Floor("C08.R5", 3)
 	c.Floor("C08.R1", 9)
